@@ -118,7 +118,7 @@ equals the number of stored elements, a derived field that is in sync). This is 
 of C01: in a consistent file every `len(...)` refresh is stable. -/
 def actStable (s : Sections) (recPath : List Step) (names : List Nat) (a : RefreshAct) : Prop :=
   ∃ selfRec v, getAt recPath s.root = some selfRec ∧ a.expr.eval (s.env names selfRec) = .ok v ∧
-    getAt (match a.dest with | .self i => recPath ++ [Step.fld i] | .sec sc i => [Step.fld sc, Step.fld i]) s.root = some v
+    getAt (a.dest.path recPath) s.root = some v
 
 theorem applyActs_stable (acts : List RefreshAct) (recPath : List Step) (names : List Nat) (s : Sections)
     (h : ∀ a ∈ acts, actStable s recPath names a) : applyActs acts recPath names s = .ok s := by
@@ -128,7 +128,7 @@ theorem applyActs_stable (acts : List RefreshAct) (recPath : List Step) (names :
   obtain ⟨selfRec, v, h1, h2, h3⟩ := h a ha
   have hs := Aoe.Props.C05.set_get _ s.root v h3
   simp only [h1, h2, bind, Except.bind, pure, Except.pure]
-  cases hd : a.dest <;> simp only [hd] at hs <;> simp [hs, Option.bind, withRoot_root]
+  simp [hs, Option.bind, withRoot_root]
 
 theorem mapM_range'_get {β : Type} (f : Nat → Except Err β) (k n : Nat) (os : List β)
     (h : (List.range' k n).mapM f = .ok os) : ∀ i o, os[i]? = some o → f (k + i) = .ok o := by
@@ -321,5 +321,590 @@ theorem demo2_stable : Stable demo2Classes 3 0 [] demo2Secs := by
 example : commitObj demo2Classes 3 0 [] (.strct [.list [.strct [.int 10, .int 0], .strct [.int 20, .int 1]]]) demo2Secs
     = .ok demo2Secs :=
   commit_construct_id_general demo2Classes 3 0 [] demo2Secs _ demo2_stable (by rfl)
+
+end Aoe.Props.Links
+
+namespace Aoe.Props.Links
+open Aoe Aoe.Codec Aoe.Lens Aoe.Commit
+
+/-! ## what a refresh establishes (C04: stored counts equal the number of stored elements) -/
+
+theorem withRoot_some (s s' : Sections) (v : Val) (h : s.withRoot v = some s') : s'.root = v ∧ s'.names = s.names := by
+  cases v <;> simp [Sections.withRoot] at h
+  subst h; exact ⟨rfl, rfl⟩
+
+/-- after a single refresh action its destination holds the value its `eval` yielded in the state it ran in -/
+theorem applyActs_single (a : RefreshAct) (recPath : List Step) (names : List Nat) (s s' : Sections)
+    (h : applyActs [a] recPath names s = .ok s') :
+    ∃ selfRec v, getAt recPath s.root = some selfRec ∧ a.expr.eval (s.env names selfRec) = .ok v ∧
+      getAt (a.dest.path recPath) s'.root = some v := by
+  simp only [applyActs, List.foldlM, bind, Except.bind] at h
+  cases hg : getAt recPath s.root with
+  | none => simp [hg] at h
+  | some selfRec =>
+    simp only [hg, pure, Except.pure] at h
+    cases he : a.expr.eval (s.env names selfRec) with
+    | error e => simp [he] at h
+    | ok v =>
+      simp only [he] at h
+      refine ⟨selfRec, v, rfl, he, ?_⟩
+      cases hs : setAt (a.dest.path recPath) s.root v with
+      | none => simp [hs, Option.bind] at h
+      | some r =>
+        simp only [hs, Option.bind] at h
+        cases hw : s.withRoot r with
+        | none => simp [hw] at h
+        | some s2 =>
+          simp only [hw, Except.ok.injEq] at h
+          subst h
+          rw [(withRoot_some s s2 r hw).1]
+          exact Aoe.Props.C05.get_set _ s.root v r hs
+
+/-- the `len(x)` refresh: the count written is the number of elements the list `x` of the same record holds -/
+theorem len_refresh_value (γ : Env) (nm : Nat) (l : List Val) (h : γ.lookup (.self nm) = .ok (.list l)) :
+    (Expr.len (.ref (.self nm))).eval γ = .ok (.int l.length) := by
+  simp [Expr.eval, h, bind, Except.bind, lenOf, pure, Except.pure]
+
+/-- **stored count = number of stored elements** after the commit of a counted list: if the refresh of a list link is the
+usual `count := len(list)` and it runs (the commit succeeds), the count retriever holds the length of the list as
+it is stored at that moment -/
+theorem count_equals_length (i nm : Nat) (recPath : List Step) (names : List Nat) (s s' : Sections) (selfRec : Val)
+    (l : List Val) (hrec : getAt recPath s.root = some selfRec)
+    (hl : (s.env names selfRec).lookup (.self nm) = .ok (.list l))
+    (h : applyActs [{ dest := .self i, expr := .len (.ref (.self nm)) }] recPath names s = .ok s') :
+    getAt (recPath ++ [Step.fld i]) s'.root = some (.int l.length) := by
+  obtain ⟨sr, v, h1, h2, h3⟩ := applyActs_single _ recPath names s s' h
+  rw [hrec] at h1
+  cases h1
+  rw [len_refresh_value _ nm l hl] at h2
+  cases h2
+  exact h3
+
+end Aoe.Props.Links
+
+namespace Aoe.Props.Links
+open Aoe Aoe.Codec Aoe.Lens Aoe.Commit
+
+/-! ## pull after push (C03 at the link level) -/
+
+/-- what a plain link pushed is what the same link pulls afterwards -/
+theorem pull_push_same (rc : Nat → List Nat → Val → Sections → Except Err Sections) (rp : Nat → List Nat → Except Err Val)
+    (hist : List Nat) (s s' : Sections) (a : Nat) (path : List PStep) (names : List Nat) (v : Val)
+    (h : pushLink rc hist s ((a, .plain path [] names), v) = .ok s') :
+    pullLink rp hist s' (a, .plain path [] names) = .ok v := by
+  simp only [pushLink, bind, Except.bind] at h
+  cases hr : resolve hist path with
+  | none => simp [hr] at h
+  | some p =>
+    simp only [hr, pure, Except.pure] at h
+    cases hs : setAt p s.root v with
+    | none => simp [hs, Option.bind] at h
+    | some r =>
+      simp only [hs, Option.bind] at h
+      cases hw : s.withRoot r with
+      | none => simp [hw] at h
+      | some s2 =>
+        simp only [hw, applyActs, List.foldlM, pure, Except.pure, Except.ok.injEq] at h
+        subst h
+        have hg := Aoe.Props.C05.get_set p s.root v r hs
+        simp only [pullLink, hr, Option.bind, (withRoot_some s s2 r hw).1, hg, pure, Except.pure]
+
+/-- frame: pushing one plain link does not change what another plain link pulls when their resolved paths diverge
+(different fields, or the same field of different list elements) -/
+theorem pull_push_frame (rc : Nat → List Nat → Val → Sections → Except Err Sections) (rp : Nat → List Nat → Except Err Val)
+    (hist hist' : List Nat) (s s' : Sections) (a b : Nat) (path path' : List PStep) (names names' : List Nat) (v : Val)
+    (p p' : List Step) (hp : resolve hist path = some p) (hp' : resolve hist' path' = some p')
+    (hd : Aoe.Props.C05.Diverge p p')
+    (h : pushLink rc hist s ((a, .plain path [] names), v) = .ok s') :
+    pullLink rp hist' s' (b, .plain path' [] names') = pullLink rp hist' s (b, .plain path' [] names') := by
+  simp only [pushLink, bind, Except.bind, hp, pure, Except.pure] at h
+  cases hs : setAt p s.root v with
+  | none => simp [hs, Option.bind] at h
+  | some r =>
+    simp only [hs, Option.bind] at h
+    cases hw : s.withRoot r with
+    | none => simp [hw] at h
+    | some s2 =>
+      simp only [hw, applyActs, List.foldlM, pure, Except.pure, Except.ok.injEq] at h
+      subst h
+      have hf := Aoe.Props.C05.frame p p' s.root v r hd hs
+      simp only [pullLink, hp', Option.bind, (withRoot_some s s2 r hw).1, hf]
+
+end Aoe.Props.Links
+
+namespace Aoe.Props.Links
+open Aoe Aoe.Codec Aoe.Lens Aoe.Commit
+
+/-! ## construct ∘ commit for plain classes: what was pushed is what is pulled (C03 at the class level) -/
+
+/-- divergence of unresolved link paths of ONE object (same index history): different retrievers somewhere along a
+common prefix (an index step against a field step also diverges) -/
+def PDiverge : List PStep → List PStep → Bool
+  | .fld i :: p, .fld j :: q => i != j || PDiverge p q
+  | .hidx i :: p, .hidx j :: q => i == j && PDiverge p q
+  | .fld _ :: _, .hidx _ :: _ => true
+  | .hidx _ :: _, .fld _ :: _ => true
+  | _, _ => false
+
+theorem resolve_diverge (hist : List Nat) (p q : List PStep) (rp rq : List Step)
+    (hp : resolve hist p = some rp) (hq : resolve hist q = some rq) (h : PDiverge p q = true) :
+    Aoe.Props.C05.Diverge rp rq := by
+  induction p generalizing q rp rq with
+  | nil => cases q <;> simp [PDiverge] at h
+  | cons a p ih =>
+    cases q with
+    | nil => cases a <;> simp [PDiverge] at h
+    | cons b q =>
+      cases a with
+      | fld i =>
+        simp only [resolve] at hp
+        cases hrp : resolve hist p with
+        | none => simp [hrp] at hp
+        | some rp' =>
+          simp only [hrp, Option.map, Option.some.injEq] at hp
+          subst hp
+          cases b with
+          | fld j =>
+            simp only [resolve] at hq
+            cases hrq : resolve hist q with
+            | none => simp [hrq] at hq
+            | some rq' =>
+              simp only [hrq, Option.map, Option.some.injEq] at hq
+              subst hq
+              simp only [PDiverge, Bool.or_eq_true, bne_iff_ne, ne_eq] at h
+              by_cases hij : i = j
+              · subst hij
+                rcases h with h | h
+                · exact absurd rfl h
+                · exact Or.inr ⟨rfl, ih q rp' rq' hrp hrq h⟩
+              · exact Or.inl (by simpa using hij)
+          | hidx k =>
+            simp only [resolve] at hq
+            cases hk : hist[k]? with
+            | none => simp [hk] at hq
+            | some n =>
+              simp only [hk] at hq
+              cases hrq : resolve hist q with
+              | none => simp [hrq] at hq
+              | some rq' =>
+                simp only [hrq, Option.map, Option.some.injEq] at hq
+                subst hq
+                exact Or.inl (by simp)
+      | hidx i =>
+        simp only [resolve] at hp
+        cases hi : hist[i]? with
+        | none => simp [hi] at hp
+        | some n =>
+          simp only [hi] at hp
+          cases hrp : resolve hist p with
+          | none => simp [hrp] at hp
+          | some rp' =>
+            simp only [hrp, Option.map, Option.some.injEq] at hp
+            subst hp
+            cases b with
+            | fld j =>
+              simp only [resolve] at hq
+              cases hrq : resolve hist q with
+              | none => simp [hrq] at hq
+              | some rq' =>
+                simp only [hrq, Option.map, Option.some.injEq] at hq
+                subst hq
+                exact Or.inl (by simp)
+            | hidx k =>
+              simp only [resolve] at hq
+              cases hk : hist[k]? with
+              | none => simp [hk] at hq
+              | some m =>
+                simp only [hk] at hq
+                cases hrq : resolve hist q with
+                | none => simp [hrq] at hq
+                | some rq' =>
+                  simp only [hrq, Option.map, Option.some.injEq] at hq
+                  subst hq
+                  simp only [PDiverge, Bool.and_eq_true, beq_iff_eq] at h
+                  obtain ⟨hik, hd⟩ := h
+                  subst hik
+                  rw [hi] at hk
+                  cases hk
+                  exact Or.inr ⟨rfl, ih q rp' rq' hrp hrq hd⟩
+
+/-- a list of independent writes -/
+def writeAll : List (List Step × Val) → Val → Option Val
+  | [], t => some t
+  | (p, v) :: ws, t => match setAt p t v with | some t1 => writeAll ws t1 | none => none
+
+theorem writeAll_frame (ws : List (List Step × Val)) (q : List Step) (t t' : Val)
+    (hd : ∀ w ∈ ws, Aoe.Props.C05.Diverge w.1 q) (h : writeAll ws t = some t') : getAt q t' = getAt q t := by
+  induction ws generalizing t with
+  | nil => simp only [writeAll, Option.some.injEq] at h; subst h; rfl
+  | cons w ws ih =>
+    obtain ⟨p, v⟩ := w
+    simp only [writeAll] at h
+    cases hs : setAt p t v with
+    | none => simp [hs] at h
+    | some t1 =>
+      simp only [hs] at h
+      rw [ih t1 (fun w hw => hd w (by simp [hw])) h]
+      exact Aoe.Props.C05.frame p q t v t1 (hd (p, v) (by simp)) hs
+
+theorem diverge_symm (p q : List Step) (h : Aoe.Props.C05.Diverge p q) : Aoe.Props.C05.Diverge q p := by
+  induction p generalizing q with
+  | nil => cases q <;> exact absurd h id
+  | cons a p ih =>
+    cases q with
+    | nil => exact absurd h id
+    | cons b q =>
+      rcases h with h | ⟨h1, h2⟩
+      · exact Or.inl (fun e => h e.symm)
+      · exact Or.inr ⟨h1.symm, ih q h2⟩
+
+/-- every one of pairwise-diverging writes is read back -/
+theorem writeAll_get (ws : List (List Step × Val)) (t t' : Val)
+    (hd : ws.Pairwise (fun a b => Aoe.Props.C05.Diverge a.1 b.1)) (h : writeAll ws t = some t') :
+    ∀ w ∈ ws, getAt w.1 t' = some w.2 := by
+  induction ws generalizing t with
+  | nil => intro w hw; simp at hw
+  | cons w0 ws ih =>
+    obtain ⟨p, v⟩ := w0
+    simp only [writeAll] at h
+    cases hs : setAt p t v with
+    | none => simp [hs] at h
+    | some t1 =>
+      simp only [hs] at h
+      rw [List.pairwise_cons] at hd
+      intro w hw
+      simp only [List.mem_cons] at hw
+      rcases hw with rfl | hw
+      · have hf := writeAll_frame ws p t1 t' (fun w hw => diverge_symm _ _ (hd.1 w hw)) h
+        rw [hf]
+        exact Aoe.Props.C05.get_set p t v t1 hs
+      · exact ih t1 hd.2 h w hw
+
+end Aoe.Props.Links
+
+namespace Aoe.Props.Links
+open Aoe Aoe.Codec Aoe.Lens Aoe.Commit
+
+/-- the writes a list of (link, value) pairs of a plain-only class performs, in list order -/
+def writesOf (hist : List Nat) : List ((Nat × LinkKind) × Val) → Option (List (List Step × Val))
+  | [] => some []
+  | lv :: r =>
+    match lv.1.2 with
+    | .plain path _ _ =>
+      match resolve hist path, writesOf hist r with
+      | some p, some ws => some ((p, lv.2) :: ws)
+      | _, _ => none
+    | _ => writesOf hist r
+
+/-- two links of one object address different places -/
+def linkDistinct (a b : LinkKind) : Bool :=
+  match a, b with
+  | .plain p _ _, .plain q _ _ => PDiverge p q
+  | _, _ => true
+
+def allDistinctFrom (a : LinkKind) : List (Nat × LinkKind) → Bool
+  | [] => true
+  | b :: r => linkDistinct a b.2 && linkDistinct b.2 a && allDistinctFrom a r
+
+/-- decidable side condition on a generated class: its plain links address pairwise different retrievers -/
+def ClassSpec.pathsDistinct : List (Nat × LinkKind) → Bool
+  | [] => true
+  | a :: r => allDistinctFrom a.2 r && ClassSpec.pathsDistinct r
+
+theorem commit_plain_writes (rc : Nat → List Nat → Val → Sections → Except Err Sections) (hist : List Nat)
+    (L : List ((Nat × LinkKind) × Val)) (hp : ∀ lv ∈ L, LinkKind.isPlainNoActs lv.1.2 = true) (s s' : Sections)
+    (h : L.foldlM (pushLink rc hist) s = .ok s') :
+    ∃ ws, writesOf hist L = some ws ∧ writeAll ws s.root = some s'.root := by
+  induction L generalizing s with
+  | nil =>
+    simp only [List.foldlM, pure, Except.pure, Except.ok.injEq] at h; subst h
+    exact ⟨[], rfl, rfl⟩
+  | cons lv L ih =>
+    simp only [List.foldlM, bind, Except.bind] at h
+    cases h1 : pushLink rc hist s lv with
+    | error e => rw [h1] at h; cases h
+    | ok s1 =>
+      rw [h1] at h
+      obtain ⟨ws, hw, hwa⟩ := ih (fun x hx => hp x (by simp [hx])) s1 h
+      have hk := hp lv (by simp)
+      obtain ⟨⟨a, k⟩, v⟩ := lv
+      cases k with
+      | hist n =>
+        simp only [pushLink, pure, Except.pure, Except.ok.injEq] at h1; subst h1
+        exact ⟨ws, by simp [writesOf, hw], hwa⟩
+      | skip =>
+        simp only [pushLink, pure, Except.pure, Except.ok.injEq] at h1; subst h1
+        exact ⟨ws, by simp [writesOf, hw], hwa⟩
+      | objs => simp [LinkKind.isPlainNoActs] at hk
+      | plain path acts names =>
+        cases acts with
+        | cons x xs => simp [LinkKind.isPlainNoActs] at hk
+        | nil =>
+          simp only [pushLink, bind, Except.bind] at h1
+          cases hr : resolve hist path with
+          | none => simp [hr] at h1
+          | some p =>
+            simp only [hr, pure, Except.pure] at h1
+            cases hs : setAt p s.root v with
+            | none => simp [hs, Option.bind] at h1
+            | some r =>
+              simp only [hs, Option.bind] at h1
+              cases hwr : s.withRoot r with
+              | none => simp [hwr] at h1
+              | some s2 =>
+                simp only [hwr, applyActs, List.foldlM, pure, Except.pure, Except.ok.injEq] at h1
+                subst h1
+                refine ⟨(p, v) :: ws, by simp [writesOf, hr, hw], ?_⟩
+                simp only [writeAll, hs]
+                rw [← (withRoot_some s s2 r hwr).1]; exact hwa
+
+theorem linkDistinct_writes (hist : List Nat) (a : (Nat × LinkKind) × Val) (L : List ((Nat × LinkKind) × Val))
+    (ws : List (List Step × Val)) (p : List Step) (path : List PStep) (acts : List RefreshAct) (names : List Nat)
+    (ha : a.1.2 = .plain path acts names) (hp : resolve hist path = some p)
+    (hd : ∀ b ∈ L, linkDistinct a.1.2 b.1.2 = true) (hw : writesOf hist L = some ws) :
+    ∀ w ∈ ws, Aoe.Props.C05.Diverge p w.1 := by
+  induction L generalizing ws with
+  | nil => simp only [writesOf, Option.some.injEq] at hw; subst hw; intro w hw; simp at hw
+  | cons b L ih =>
+    obtain ⟨⟨bn, bk⟩, bv⟩ := b
+    have hb := hd ((bn, bk), bv) (by simp)
+    have hrest : ∀ x ∈ L, linkDistinct a.1.2 x.1.2 = true := fun x hx => hd x (List.mem_cons_of_mem _ hx)
+    cases bk with
+    | hist n => simp only [writesOf] at hw; exact ih ws hrest hw
+    | skip => simp only [writesOf] at hw; exact ih ws hrest hw
+    | objs a1 a2 a3 a4 a5 a6 a7 => simp only [writesOf] at hw; exact ih ws hrest hw
+    | plain q qa qn =>
+      simp only [writesOf] at hw
+      cases hq : resolve hist q with
+      | none => simp [hq] at hw
+      | some rq =>
+        cases hws : writesOf hist L with
+        | none => simp [hq, hws] at hw
+        | some ws' =>
+          simp only [hq, hws, Option.some.injEq] at hw
+          subst hw
+          intro w hw
+          simp only [List.mem_cons] at hw
+          rcases hw with rfl | hw
+          · rw [ha] at hb
+            simp only [linkDistinct] at hb
+            exact resolve_diverge hist path q p rq hp hq hb
+          · exact ih ws' hrest hws w hw
+
+end Aoe.Props.Links
+
+namespace Aoe.Props.Links
+open Aoe Aoe.Codec Aoe.Lens Aoe.Commit
+
+/-- symmetric distinctness of two (link, value) pairs -/
+def PairDistinct (a b : (Nat × LinkKind) × Val) : Prop :=
+  linkDistinct a.1.2 b.1.2 = true ∧ linkDistinct b.1.2 a.1.2 = true
+
+theorem allDistinctFrom_spec (a : LinkKind) (r : List (Nat × LinkKind)) (h : allDistinctFrom a r = true) :
+    ∀ b ∈ r, linkDistinct a b.2 = true ∧ linkDistinct b.2 a = true := by
+  induction r with
+  | nil => intro b hb; simp at hb
+  | cons c r ih =>
+    simp only [allDistinctFrom, Bool.and_eq_true] at h
+    intro b hb
+    simp only [List.mem_cons] at hb
+    rcases hb with rfl | hb
+    · exact ⟨h.1.1, h.1.2⟩
+    · exact ih h.2 b hb
+
+theorem pathsDistinct_pairwise (links : List (Nat × LinkKind)) (vals : List Val)
+    (h : ClassSpec.pathsDistinct links = true) : (links.zip vals).Pairwise PairDistinct := by
+  induction links generalizing vals with
+  | nil => simp
+  | cons a r ih =>
+    cases vals with
+    | nil => simp
+    | cons v vs =>
+      simp only [ClassSpec.pathsDistinct, Bool.and_eq_true] at h
+      rw [List.zip_cons_cons, List.pairwise_cons]
+      refine ⟨?_, ih vs h.2⟩
+      intro b hb
+      have hb1 : b.1 ∈ r := (List.of_mem_zip hb).1
+      exact allDistinctFrom_spec a.2 r h.1 b.1 hb1
+
+theorem pairDistinct_symm (a b : (Nat × LinkKind) × Val) (h : PairDistinct a b) : PairDistinct b a := ⟨h.2, h.1⟩
+
+theorem writes_pairwise (hist : List Nat) (L : List ((Nat × LinkKind) × Val)) (ws : List (List Step × Val))
+    (hd : L.Pairwise PairDistinct) (hw : writesOf hist L = some ws) :
+    ws.Pairwise (fun a b => Aoe.Props.C05.Diverge a.1 b.1) := by
+  induction L generalizing ws with
+  | nil => simp only [writesOf, Option.some.injEq] at hw; subst hw; simp
+  | cons a L ih =>
+    rw [List.pairwise_cons] at hd
+    obtain ⟨⟨an, ak⟩, av⟩ := a
+    cases ak with
+    | hist n => simp only [writesOf] at hw; exact ih ws hd.2 hw
+    | skip => simp only [writesOf] at hw; exact ih ws hd.2 hw
+    | objs a1 a2 a3 a4 a5 a6 a7 => simp only [writesOf] at hw; exact ih ws hd.2 hw
+    | plain path acts names =>
+      simp only [writesOf] at hw
+      cases hp : resolve hist path with
+      | none => simp [hp] at hw
+      | some p =>
+        cases hws : writesOf hist L with
+        | none => simp [hp, hws] at hw
+        | some ws' =>
+          simp only [hp, hws, Option.some.injEq] at hw
+          subst hw
+          rw [List.pairwise_cons]
+          refine ⟨?_, ih ws' hd.2 hws⟩
+          exact linkDistinct_writes hist ((an, .plain path acts names), av) L ws' p path acts names rfl hp
+            (fun b hb => (hd.1 b hb).1) hws
+
+theorem mem_writesOf (hist : List Nat) (L : List ((Nat × LinkKind) × Val)) (ws : List (List Step × Val))
+    (hw : writesOf hist L = some ws) (a : Nat) (path : List PStep) (acts : List RefreshAct) (names : List Nat) (v : Val)
+    (hm : ((a, LinkKind.plain path acts names), v) ∈ L) :
+    ∃ p, resolve hist path = some p ∧ (p, v) ∈ ws := by
+  induction L generalizing ws with
+  | nil => simp at hm
+  | cons b L ih =>
+    obtain ⟨⟨bn, bk⟩, bv⟩ := b
+    simp only [List.mem_cons] at hm
+    cases bk with
+    | hist n =>
+      simp only [writesOf] at hw
+      rcases hm with h | h
+      · cases h
+      · exact ih ws hw h
+    | skip =>
+      simp only [writesOf] at hw
+      rcases hm with h | h
+      · cases h
+      · exact ih ws hw h
+    | objs a1 a2 a3 a4 a5 a6 a7 =>
+      simp only [writesOf] at hw
+      rcases hm with h | h
+      · cases h
+      · exact ih ws hw h
+    | plain q qa qn =>
+      simp only [writesOf] at hw
+      cases hq : resolve hist q with
+      | none => simp [hq] at hw
+      | some rq =>
+        cases hws : writesOf hist L with
+        | none => simp [hq, hws] at hw
+        | some ws' =>
+          simp only [hq, hws, Option.some.injEq] at hw
+          subst hw
+          rcases hm with h | h
+          · cases h
+            exact ⟨rq, hq, by simp⟩
+          · obtain ⟨p, hp, hmem⟩ := ih ws' hws h
+            exact ⟨p, hp, by simp [hmem]⟩
+
+/-- **construct ∘ commit on plain classes**: after the commit of an object of a class whose links are plain value links
+addressing pairwise different retrievers, every link pulls exactly the value that was pushed through it -/
+theorem pull_after_commit (classes : List ClassSpec) (fuel cls : Nat) (hist : List Nat) (s s' : Sections) (vals : List Val)
+    (c : ClassSpec) (hc : classes[cls]? = some c) (hp : ClassSpec.plainOnly c = true)
+    (hd : ClassSpec.pathsDistinct c.links = true)
+    (h : commitObj classes (fuel + 1) cls hist (.strct vals) s = .ok s')
+    (rp : Nat → List Nat → Except Err Val) (a : Nat) (path : List PStep) (names : List Nat) (v : Val)
+    (hm : ((a, LinkKind.plain path [] names), v) ∈ c.links.zip vals) :
+    pullLink rp hist s' (a, .plain path [] names) = .ok v := by
+  simp only [commitObj, hc] at h
+  have hplain : ∀ lv ∈ (c.links.zip vals).reverse, LinkKind.isPlainNoActs lv.1.2 = true := by
+    intro lv hlv
+    have : lv.1 ∈ c.links := (List.of_mem_zip (by simpa using hlv)).1
+    have := List.all_eq_true.mp hp lv.1 this
+    simpa using this
+  obtain ⟨ws, hw, hwa⟩ := commit_plain_writes _ hist _ hplain s s' h
+  have hpw : ((c.links.zip vals).reverse).Pairwise PairDistinct := by
+    rw [List.pairwise_reverse]
+    exact (pathsDistinct_pairwise c.links vals hd).imp (fun hab => pairDistinct_symm _ _ hab)
+  have hdw := writes_pairwise hist _ ws hpw hw
+  obtain ⟨p, hrp, hmem⟩ := mem_writesOf hist _ ws hw a path [] names v (by simpa using hm)
+  have hg := writeAll_get ws s.root s'.root hdw hwa (p, v) hmem
+  simp only [pullLink, hrp, Option.bind, hg, pure, Except.pure]
+
+example : ClassSpec.pathsDistinct demoClasses[0].links = true := by decide
+
+/-- every write of a plain-only commit is the write of one of its links -/
+theorem writesOf_origin (hist : List Nat) (L : List ((Nat × LinkKind) × Val)) (ws : List (List Step × Val))
+    (hw : writesOf hist L = some ws) (p : List Step) (v : Val) (hm : (p, v) ∈ ws) :
+    ∃ a path acts names, ((a, LinkKind.plain path acts names), v) ∈ L ∧ resolve hist path = some p := by
+  induction L generalizing ws with
+  | nil => simp only [writesOf, Option.some.injEq] at hw; subst hw; simp at hm
+  | cons b L ih =>
+    obtain ⟨⟨bn, bk⟩, bv⟩ := b
+    cases bk with
+    | hist n =>
+      simp only [writesOf] at hw
+      obtain ⟨a, path, acts, names, h1, h2⟩ := ih ws hw hm
+      exact ⟨a, path, acts, names, by simp [h1], h2⟩
+    | skip =>
+      simp only [writesOf] at hw
+      obtain ⟨a, path, acts, names, h1, h2⟩ := ih ws hw hm
+      exact ⟨a, path, acts, names, by simp [h1], h2⟩
+    | objs a1 a2 a3 a4 a5 a6 a7 =>
+      simp only [writesOf] at hw
+      obtain ⟨a, path, acts, names, h1, h2⟩ := ih ws hw hm
+      exact ⟨a, path, acts, names, by simp [h1], h2⟩
+    | plain q qa qn =>
+      simp only [writesOf] at hw
+      cases hq : resolve hist q with
+      | none => simp [hq] at hw
+      | some rq =>
+        cases hws : writesOf hist L with
+        | none => simp [hq, hws] at hw
+        | some ws' =>
+          simp only [hq, hws, Option.some.injEq] at hw
+          subst hw
+          simp only [List.mem_cons, Prod.mk.injEq] at hm
+          rcases hm with ⟨h1, h2⟩ | h
+          · subst h1; subst h2
+            exact ⟨bn, q, qa, qn, by simp, hq⟩
+          · obtain ⟨a, path, acts, names, h1, h2⟩ := ih ws' hws h
+            exact ⟨a, path, acts, names, by simp [h1], h2⟩
+
+/-- **frame of a commit** (plain classes): a place that diverges from the retriever of every link of the class holds
+after the commit what it held before -/
+theorem commit_frame (classes : List ClassSpec) (fuel cls : Nat) (hist : List Nat) (s s' : Sections) (vals : List Val)
+    (c : ClassSpec) (hc : classes[cls]? = some c) (hp : ClassSpec.plainOnly c = true)
+    (h : commitObj classes (fuel + 1) cls hist (.strct vals) s = .ok s')
+    (q : List Step)
+    (hq : ∀ a path acts names p, (a, LinkKind.plain path acts names) ∈ c.links → resolve hist path = some p →
+      Aoe.Props.C05.Diverge p q) :
+    getAt q s'.root = getAt q s.root := by
+  simp only [commitObj, hc] at h
+  have hplain : ∀ lv ∈ (c.links.zip vals).reverse, LinkKind.isPlainNoActs lv.1.2 = true := by
+    intro lv hlv
+    have : lv.1 ∈ c.links := (List.of_mem_zip (by simpa using hlv)).1
+    have := List.all_eq_true.mp hp lv.1 this
+    simpa using this
+  obtain ⟨ws, hw, hwa⟩ := commit_plain_writes _ hist _ hplain s s' h
+  refine writeAll_frame ws q s.root s'.root ?_ hwa
+  intro w hwm
+  obtain ⟨p, v⟩ := w
+  obtain ⟨a, path, acts, names, h1, h2⟩ := writesOf_origin hist _ ws hw p v hwm
+  have : (a, LinkKind.plain path acts names) ∈ c.links := (List.of_mem_zip (by simpa using h1)).1
+  exact hq a path acts names p this h2
+
+/-- **an edit lands exactly where it belongs** (plain classes with pairwise different retrievers): two commits of the
+same object that differ in the values of some links, started from the same sections, produce sections in which
+(1) every link pulls its own object's value, so a link whose value is the same in both pulls the same in both, and
+(2) every place outside the links' retrievers is what it was before, in both -/
+theorem edit_lands_only_there (classes : List ClassSpec) (fuel cls : Nat) (hist : List Nat) (s s1 s2 : Sections)
+    (vals1 vals2 : List Val) (c : ClassSpec) (hc : classes[cls]? = some c) (hp : ClassSpec.plainOnly c = true)
+    (hd : ClassSpec.pathsDistinct c.links = true)
+    (h1 : commitObj classes (fuel + 1) cls hist (.strct vals1) s = .ok s1)
+    (h2 : commitObj classes (fuel + 1) cls hist (.strct vals2) s = .ok s2)
+    (rp : Nat → List Nat → Except Err Val) :
+    (∀ a path names v1 v2, ((a, LinkKind.plain path [] names), v1) ∈ c.links.zip vals1 →
+        ((a, LinkKind.plain path [] names), v2) ∈ c.links.zip vals2 →
+        pullLink rp hist s1 (a, .plain path [] names) = .ok v1 ∧ pullLink rp hist s2 (a, .plain path [] names) = .ok v2) ∧
+    (∀ q, (∀ a path acts names p, (a, LinkKind.plain path acts names) ∈ c.links → resolve hist path = some p →
+        Aoe.Props.C05.Diverge p q) → getAt q s1.root = getAt q s2.root) := by
+  refine ⟨?_, ?_⟩
+  · intro a path names v1 v2 m1 m2
+    exact ⟨pull_after_commit classes fuel cls hist s s1 vals1 c hc hp hd h1 rp a path names v1 m1,
+           pull_after_commit classes fuel cls hist s s2 vals2 c hc hp hd h2 rp a path names v2 m2⟩
+  · intro q hq
+    rw [commit_frame classes fuel cls hist s s1 vals1 c hc hp h1 q hq,
+        commit_frame classes fuel cls hist s s2 vals2 c hc hp h2 q hq]
 
 end Aoe.Props.Links
